@@ -22,6 +22,10 @@ ASSUMPTIONS = ["the agreement theorems assume wf_field / wf_enum (Model/RuntimeS
                "attributes outside the modelled vector (names, numbers, JSON/text names, defaults, ranges, map key/value, oneof membership, services) are compared impl-vs-runtime only (direct oracle), not modelled"]
 
 FEATS = featgen.FEATURES
+# set to True when msgDescriptor.RequiredNumbers has been repaired in the repository (select on Cardinality());
+# then also claim Props/C04_repaired.v C04_required_numbers_eq_runtime instead of the _refuted/_partial pair
+REQUIRED_NUMBERS_REPAIRED = False
+CHK = "views_chk_rn_repaired" if REQUIRED_NUMBERS_REPAIRED else "views_chk"
 
 
 # ------------------------------------------------------------------------------------------------
@@ -342,7 +346,7 @@ def run(ctx):
               "From PV Require Import Common.Corr Model.FeaturesTables Model.Features Model.FieldView Model.RuntimeSpec Model.ViewsCorr.\nOpen Scope N_scope.\n")
     ctx.extra["t_terms"] = round(_t.time() - ctx.t0, 1)
     ctx.extra["n_terms"] = len(terms)
-    mism, err = coq_eval_mismatches("cases_C04", header, terms, "views_chk", shard_size=ctx.budget(700, 1500))
+    mism, err = coq_eval_mismatches("cases_C04", header, terms, CHK, shard_size=ctx.budget(700, 1500))
     ctx.extra["t_coq"] = round(_t.time() - ctx.t0, 1)
     if err:
         raise RuntimeError(err)
@@ -385,7 +389,7 @@ def run(ctx):
             else:
                 split_terms.append(t)
                 split_meta.append(("model:" + meta[k][0], k))
-        m2, err = coq_eval_mismatches("cases_C04s", header, split_terms, "views_chk", shard_size=400)
+        m2, err = coq_eval_mismatches("cases_C04s", header, split_terms, CHK, shard_size=400)
         if err:
             raise RuntimeError(err)
         blamed = set()
